@@ -255,7 +255,7 @@ func daysIn(y, m int) int {
 }
 
 func runC19(c *Ctx) {
-	c.R.Rule = "wall-clock instants (date x second-of-day x zone x date system): every day of selected years (boundaries 1899-1905, leap/century years, 2^21-day boundary, 9999) and of every Nth year (N=997 quick / 1 thorough), first/last day of Jan, Feb, Mar, Dec of every 11th year (every year thorough); seconds {0,1,59,60,3599,3600,43199,43200,43201,86398,86399} on boundary days plus 2 random seconds per day; zones by PRNG; sub-second instants for correspondence only. non-trivial = instant inside the property's range; distinct = distinct (system,date,second,zone)"
+	c.R.Rule = "sequences of SetCellValue(time) in one process whose zones share a name but not an offset (unnamed and same-named fixed zones, tz database zones on both sides of daylight-saving transitions): stored serial = conversion of the value's own wall clock, decodes to it; wall-clock instants (date x second-of-day x zone x date system): every day of selected years (boundaries 1899-1905, leap/century years, 2^21-day boundary, 9999) and of every Nth year (N=997 quick / 1 thorough), first/last day of Jan, Feb, Mar, Dec of every 11th year (every year thorough); seconds {0,1,59,60,3599,3600,43199,43200,43201,86398,86399} on boundary days plus 2 random seconds per day; zones by PRNG; sub-second instants for correspondence only. non-trivial = instant inside the property's range; distinct = distinct (system,date,second,zone)"
 	fs := newC19Files()
 	defer fs.f1900.Close()
 	defer fs.f1904.Close()
@@ -330,6 +330,7 @@ func runC19(c *Ctx) {
 		}
 		flush()
 	}
+	c.c19ZoneSequences(fs)
 	c.Sample(c19case{false, 1900, 3, 1, 0, 0, "UTC", 0})
 	c.Sample(c19case{true, 1904, 1, 1, 0, 0, "+05:30", 19800})
 	c.Sample(c19case{false, 9999, 12, 31, 86399, 0, "-09:30", -34200})
